@@ -74,7 +74,9 @@ mixA漢
 
 [äσ  REFa] [ÄΣ REFA][]
 
-[textA][refA] [refA][] [refA] ![imgA](/imgA&#70;.png "ititle&#71;A") <http://autoA.example/ä A>
+[textA][refA] [refA][] [refA] ![imgA
+alt2A *emA*
+alt3A](/imgA&#70;.png "ititle&#71;A") <http://autoA.example/ä A>
 
 [destA](/dest&#65;A?q=&amp;x\_y&copy; "ti&#66;tle&reg;A\"") [emptyA]() [angleA](</a b&#72;> 'sq&#73;A')
 
@@ -84,6 +86,8 @@ breakA
 | hA | hB | hC |
 |:---|---:|:--:|
 | a1 | ` + "`a\\|2`" + ` | a3 |
+| a4 | a5 | a6 | a7 |
+| a8 |
 
 ~~strikeA~~ www.linkA.example mailA@example.com
 
@@ -139,16 +143,20 @@ mixB字
 
 [жßREFb] [ЖẞREFB][]
 
-[textB][refB] [refB][] [refB] ![imgB](/imgB&#x6a;.gif "ititle&#x6b;B") <https://autoB.example/ö B>
+[textB][refB] [refB][] [refB] ![imgB
+alt2B *emB*
+alt3B](/imgB&#x6a;.gif "ititle&#x6b;B") <https://autoB.example/ö B>
 
 [destB](/dest&#x61;B?q=&lt;x\*y&para; "ti&#x62;tle&deg;B\'") [emptyB]() [angleB](</b c&#x6c;> 'sq&#x6d;B')
 
 _emB __strongB___ ` + "` codeB `" + ` &lt; &#x42; \_escB\_ lineB\
 breakB
 
-| kA | kB | kC |
-|---:|:--:|:---|
+| kA | kB | kC | kD | kE |
+|---:|:--:|:---|----|:---|
 | b1 | ` + "`b\\|2`" + ` | b3 |
+| b4 |
+| b5 | b6 | b7 | b8 | b9 | b10 |
 
 ~~strikeB~~ www.linkB.example mailB@example.org
 
@@ -169,7 +177,7 @@ const (
 	// numeric references and escapes but no named entity: the entity table (21 k statements to build) is raced in S6
 	tiny1 = "a *b* [c](/d&#65;\\_ \"t&#66;\") [Äx]\n\n[äX]: /f1\n"
 	tiny2 = "# e &#67; {title=t2 lang=l2 slot=s2}\n\n- f `g` [h](/i&#x68; 'u&#x69;') [Жy][]\n\n[жY]: /f2\n"
-	tiny3 = "> h &#74;\n\n## k {slot=s3 title=t3 lang=l3 itemref=i3}\n\n1. i ![j](/k&#75;) [Σz]\n\n[σZ]: /f3\n"
+	tiny3 = "> h &#74;\n\n## k {slot=s3 title=t3 lang=l3 itemref=i3}\n\n1. i ![j\n   j2](/k&#75;) [Σz]\n\n[σZ]: /f3\n"
 	warm  = "warm *up* &amp; [x](/y) `z`\n\n| a |\n|---|\n| b |\n"
 	ent1  = "&amp; x &copy;\n"
 	ent2  = "[a](/u?&para;=1 \"&reg;\")\n"
